@@ -62,6 +62,7 @@
     fn as_time_mod_24h() {
         let d = any_duration();
         let s = d.num_seconds();
+        kani::assume(s > -0x1_0000_0000 && s < 0x1_0000_0000);   // |D| < 2^32 s (136 years)
         let t = DurationItem(d).as_time();
         let mag = if s < 0 { -s } else { s };
         kani::cover!(mag > 86400, "COVER:more_than_a_day");
